@@ -490,6 +490,8 @@ class Program(object):
             if key not in names:
                 names.insert(0, key)
             return names
+        if key in EXT_BASES:
+            return [key] + self.exc_ancestors(EXT_BASES[key])
         return [key, 'Exception', 'BaseException']
 
     def exc_is_sub(self, key, handler_key):
@@ -503,6 +505,14 @@ import socket as _socket
 EXT_ALIASES = {
     'IOError': 'OSError', 'EnvironmentError': 'OSError', 'socket.error': 'OSError',
     'select.error': 'OSError', 'exceptions.IOError': 'OSError',
+}
+# third-party exception hierarchy (documented by the libraries; they are not importable here)
+EXT_BASES = {
+    'usb1.USBErrorTimeout': 'usb1.USBError', 'usb1.USBErrorNoDevice': 'usb1.USBError', 'usb1.USBErrorIO': 'usb1.USBError',
+    'usb1.USBErrorAccess': 'usb1.USBError', 'usb1.USBErrorBusy': 'usb1.USBError', 'usb1.USBErrorPipe': 'usb1.USBError',
+    'usb1.USBError': 'Exception',
+    'serial.SerialTimeoutException': 'serial.SerialException', 'serial.SerialException': 'OSError',
+    'ndef.DecodeError': 'Exception', 'ndef.EncodeError': 'Exception',
 }
 EXT_EXC = {
     'struct.error': _struct.error,
